@@ -20,36 +20,12 @@ Inductive case08 :=
 
 Definition okN (r : res N) (v : N) : bool := match r with Ok a => a =? v | _ => false end.
 
-(* in-grid face neighbours, in the order the harness lists them:
-   per axis (x, y[, z]): minus then plus *)
-Definition nbrs1 (side c : N) : list N :=
-  (if 0 <? c then [c - 1] else []) ++ (if c + 1 <? side then [c + 1] else []).
-Definition nbrs2 (order x y : N) : list (N * N) :=
-  let side := 2 ^ order in
-  map (fun x' => (x', y)) (nbrs1 side x) ++ map (fun y' => (x, y')) (nbrs1 side y).
-Definition nbrs3 (order x y z : N) : list (N * N * N) :=
-  let side := 2 ^ order in
-  map (fun x' => (x', y, z)) (nbrs1 side x) ++ map (fun y' => (x, y', z)) (nbrs1 side y)
-  ++ map (fun z' => (x, y, z')) (nbrs1 side z).
-
 Fixpoint all2 {A B} (f : A -> B -> bool) (a : list A) (b : list B) : bool :=
   match a, b with
   | [], [] => true
   | x :: a', y :: b' => f x y && all2 f a' b'
   | _, _ => false
   end.
-
-(* the property as far as one cell, its parent and its face neighbours show it:
-   index in range; dropping D bits gives the parent's index; the cells holding
-   the next and the previous index are among the face neighbours; no neighbour
-   shares the index.  [false] refutes bijectivity, continuity or the recurrence. *)
-Definition check_cell (D order h hp : N) (nb : list N) : bool :=
-  let total := 2 ^ (D * order) in
-  (h <? total)
-  && ((order =? 0) || (h / 2 ^ D =? hp))
-  && (negb (h + 1 <? total) || existsb (fun h' => h' =? h + 1) nb)
-  && ((h =? 0) || existsb (fun h' => h' + 1 =? h) nb)
-  && forallb (fun h' => negb (h' =? h)) nb.
 
 (* exhaustive check of one order: [hs] lists the index of every cell, cell
    number i = x * side^(D-1) + ... (x-major).  Bijection onto [0, Q^n): every
